@@ -465,6 +465,55 @@ theorem shows_across_resizes_aux (dec : String → G) (cw : String → Nat) (hsp
       rw [List.getLast?_cons_cons] at hlast
       exact h3 sg' hlast
 
+/-! ### what a history re-establishes -/
+
+/-- The renderer's memory after a history (the reference display component is irrelevant: `MemEq`). -/
+def segsMem (caps : Caps) (cw : String → Nat) : HState → List Seg → HState
+  | s, [] => s
+  | s, sg :: rest =>
+    segsMem caps cw (sg.frames.foldl (stepHC cw caps) ⟨s.t, Model.Render.blankGrid sg.cols sg.rows, s.cursor, s.shape⟩) rest
+
+omit [CapsOkU caps] in
+theorem segsMem_memEq (cw : String → Nat) : ∀ (segs : List Seg) {a b : HState}, MemEq a b →
+    MemEq (segsMem caps cw a segs) (segsMem caps cw b segs)
+  | [], _, _, h => h
+  | sg :: rest, a, b, h => by
+    simp only [segsMem]
+    exact segsMem_memEq cw rest (foldl_memEq cw sg.frames ⟨rfl, h.2.1, h.2.2⟩)
+
+/-- **Every history re-establishes the start state of the composition** (`LinkedP`, at the size of the
+    last segment — the initial size if there is none), with the renderer's memory that of the run: so
+    `C12Bridge.emu_and_term_show` (the reference-terminal clause) and every other per-size theorem apply
+    after any history with resizes. -/
+theorem history_relinks (dec : String → G) (cw : String → Nat) (hsp : cw "20" = 1) (hd : dec "20" = [32])
+    (hemp : dec "" = []) (hlp : LpOk dec) :
+    ∀ (segs : List Seg) (rows cols : Nat) (s s' : HState) (e : Emu), MemEq s s' → LinkedP dec cw s' e rows cols →
+      (∀ sg ∈ segs, SegOkU caps dec cw sg) →
+      ∃ e' s2', runSegs caps dec cw s e segs = .ok e' ∧ MemEq (segsMem caps cw s segs) s2' ∧
+        LinkedP dec cw s2' e' ((segs.getLast?.map (·.rows)).getD rows) ((segs.getLast?.map (·.cols)).getD cols) := by
+  intro segs
+  induction segs with
+  | nil => intro rows cols s s' e hm hl _; exact ⟨e, s', rfl, hm, hl⟩
+  | cons sg rest ih =>
+    intro rows cols s s' e hm hl hok
+    obtain ⟨e1, e2, s2', hr1, hr2, hm2, lr, _, _⟩ := seg_any dec cw hsp hd hemp hlp rows cols s s' e hm hl sg (hok sg (by simp))
+    obtain ⟨e3, s3', hr3, hm3, lr3⟩ := ih sg.rows sg.cols _ s2' e2 hm2 lr (fun x hx => hok x (by simp [hx]))
+    refine ⟨e3, s3', by simp only [runSegs, hr1, hr2, bind, Except.bind]; exact hr3, ?_, ?_⟩
+    · simp only [segsMem]
+      have h1 : MemEq (sg.frames.foldl (stepHC cw caps) ⟨s.t, Model.Render.blankGrid sg.cols sg.rows, s.cursor, s.shape⟩)
+          (sg.frames.foldl (stepHC cw caps) (afterResize sg.cols sg.rows e1 s)) :=
+        foldl_memEq cw sg.frames ⟨rfl, rfl, rfl⟩
+      have h2 := segsMem_memEq (caps := caps) cw rest h1
+      exact ⟨h2.1.trans hm3.1, h2.2.1.trans hm3.2.1, h2.2.2.trans hm3.2.2⟩
+    · cases rest with
+      | nil => simpa using lr3
+      | cons b rest' =>
+        have hx : (sg :: b :: rest').getLast? = (b :: rest').getLast? := List.getLast?_cons_cons
+        rw [hx]
+        cases hg : (b :: rest').getLast? with
+        | none => simp at hg
+        | some x => rw [hg] at lr3; simpa using lr3
+
 /-- **C12, the composition theorem for whole histories including resizes, on ANY screen, with or without
     styled underlines and direct colour.** From any state of an application whose last flush is complete
     (`LinkedP`: C01's `Ready`, `DSim`, the cursor's visibility as remembered — on the alternate screen
